@@ -24,6 +24,8 @@ import (
 	"sync"
 	"testing"
 	"time"
+
+	"github.com/snower/slock/protocol"
 )
 
 var vfC16Assumptions = []string{
@@ -35,40 +37,40 @@ var vfC16Assumptions = []string{
 }
 
 type vfC16Image struct {
-	Dir    string
-	Now    int64
-	Point  string
-	Comp   int    // compaction number within the history
-	Phase  string // "at-hook" | "after-appends" | "start-up"
-	I0     string // directory image at the start of that compaction
-	Live   *vfSnapshot // the running instance's own state when the image was taken
-	Cur0   int    // index of the current append file when it started
+	Dir   string
+	Now   int64
+	Point string
+	Comp  int         // compaction number within the history
+	Phase string      // "at-hook" | "after-appends" | "start-up"
+	I0    string      // directory image at the start of that compaction
+	Live  *vfSnapshot // the running instance's own state when the image was taken
+	Cur0  int         // index of the current append file when it started
 }
 
 // vfC16Ctl drives the compaction goroutines of one instance.
 type vfC16Ctl struct {
-	mu      sync.Mutex
-	cond    *sync.Cond
-	base    string
-	nImg    int
-	images  []*vfC16Image
-	in      *vfInstance
-	dir     string
-	waiting []chan struct{} // goroutines standing at REWRITE_ENTER
-	active  bool            // a released compaction has not exited yet
-	parkAt  int             // hook point at which the active compaction parks (0 = nowhere)
-	parkNth int             // ... at its n-th hit of that point
-	hits    map[int]int
-	parked  chan struct{}
+	mu       sync.Mutex
+	cond     *sync.Cond
+	base     string
+	nImg     int
+	images   []*vfC16Image
+	in       *vfInstance
+	dir      string
+	waiting  []chan struct{} // goroutines standing at REWRITE_ENTER
+	active   bool            // a released compaction has not exited yet
+	parkAt   int             // hook point at which the active compaction parks (0 = nowhere)
+	parkNth  int             // ... at its n-th hit of that point
+	hits     map[int]int
+	parked   chan struct{}
 	isParked bool
-	exited  int
-	comp    int
-	i0      string
-	cur0    int
-	skipped int
-	free    bool // no gating at all (start-up compaction of a recovery)
-	live    *vfSnapshot // fixed live state (start-up: the state of the stopped instance)
-	phase   string
+	exited   int
+	comp     int
+	i0       string
+	cur0     int
+	skipped  int
+	free     bool        // no gating at all (start-up compaction of a recovery)
+	live     *vfSnapshot // fixed live state (start-up: the state of the stopped instance)
+	phase    string
 }
 
 func vfNewC16Ctl(base string, in *vfInstance, dir string) *vfC16Ctl {
@@ -462,17 +464,51 @@ func vfRunC16Case(env *vfEnv, part *vfPart, caseNo int) {
 				// records are left; compaction changes that set (known finding)
 				sig = "value-rebuilt-from-the-records-that-are-left"
 			default:
-				nLock, upd := 0, false
+				// the open finding is about holds with re-entrant re-lock records (several levels, rebuilt from
+				// whichever LOCK records the compaction keeps). A hold that was only UPDATED (flag 0x02: one
+				// level, new terms) is not part of it: dropping its superseded update records changes nothing,
+				// dropping the latest one does
+				nLock, relocks := 0, 0
 				for _, r := range recs {
 					if r.Db == d.Db && r.Key == d.Key && r.LockId == d.LockId && r.Cmd == 1 {
 						nLock++
-						if r.Flag&0x02 != 0 || r.AofFlag&AOF_FLAG_UPDATED != 0 {
-							upd = true
+						if nLock > 1 && r.Flag&0x02 == 0 {
+							relocks++
 						}
 					}
 				}
-				if nLock > 1 || upd {
+				if relocks > 0 {
 					sig = "re-locked-or-updated-hold"
+				} else if nLock > 0 {
+					// update-flagged records only: the open finding is that compaction drops such a record when its
+					// terms no longer equal the hold's. Does the newest record of the hold describe the live hold?
+					var last *vfLogRec
+					for i := range recs {
+						if r := &recs[i]; r.Db == d.Db && r.Key == d.Key && r.LockId == d.LockId && r.Cmd == 1 && r.Flag&0x02 != 0 {
+							last = r
+						}
+					}
+					describes := false
+					if last != nil && img.Live != nil {
+						if lk := img.Live.find(d.Db, d.Key); lk != nil {
+							if lh := lk.hold(d.LockId); lh != nil {
+								dl := int64(last.CommandTime) + int64(last.ExpriedTime)
+								if last.ExpriedFlag&protocol.EXPRIED_FLAG_MINUTE_TIME != 0 {
+									dl = int64(last.CommandTime) + int64(last.ExpriedTime)*60
+								}
+								unl := last.ExpriedFlag&protocol.EXPRIED_FLAG_UNLIMITED_EXPRIED_TIME != 0
+								if lh.Count == last.Count && lh.Rcount == last.Rcount && (unl == (lh.EFlag&protocol.EXPRIED_FLAG_UNLIMITED_EXPRIED_TIME != 0)) && (unl || (lh.Deadline-dl <= 2 && dl-lh.Deadline <= 2)) {
+									describes = true
+								}
+							}
+						}
+					}
+					if last != nil && !describes {
+						sig = "re-locked-or-updated-hold"
+					}
+					if last != nil && describes {
+						stats["update_record_describes_the_live_hold"]++
+					}
 				}
 				if sig == "" && img.Live != nil {
 					// replay re-admits holds through the normal admission rule (C07 finding):
